@@ -1,4 +1,146 @@
+//! C16 — Boudot range proof: in-range values prove, nothing else is accepted. Completeness grid; honest prover out of
+//! range; (C) exhaustive transplant patterns of an honest proof's sub-proofs onto foreign commitments; leaf edits.
+#![allow(non_snake_case)]
 use crate::common::*;
+use mccore::{int_leaf_paths, json_get, json_set, par_for, path_class, O};
+use rug::{Complete, Integer};
+use serde_json::{json, Value};
+use zkryptium::cl03::commitment::CL03Commitment;
 use zkryptium::cl03::keys::{CL03PublicKey, CL03SecretKey};
+use zkryptium::cl03::range_proof::Boudot2000RangeProof as RP;
 use zkryptium::schemes::algorithms::{Scheme, CL03};
-pub fn run<CS: Suite>(_env: &Env) where CL03<CS>: Scheme<PubKey = CL03PublicKey, PrivKey = CL03SecretKey>, CS::HashAlg: sha2::Digest {}
+
+fn commit(x: &Integer, r: &Integer, g: &Integer, h: &Integer, n: &Integer) -> CL03Commitment {
+    CL03Commitment { value: (modpow(g, x, n) * modpow(h, r, n)) % n, randomness: r.clone() }
+}
+fn inv(a: &Integer, n: &Integer) -> Integer { a.clone().invert(n).unwrap_or_default() }
+const T_PARAM: u32 = 128; const L_PARAM: u32 = 40;
+
+pub fn run<CS: Suite>(env: &Env)
+where CL03<CS>: Scheme<PubKey = CL03PublicKey, PrivKey = CL03SecretKey>, CS::HashAlg: sha2::Digest {
+    let seed = env.ctx.seed;
+    let w: World<CS> = World::generate(2);
+    // two (base1, base2, modulus) settings: issuer (a_0, b, N) and commitment key with its own modulus (g_0, h, N')
+    let settings: Vec<(&str, Integer, Integer, Integer)> = vec![("issuer(a0,b,N)", w.bases.0[0].clone(), w.pk.b.clone(), w.pk.N.clone()), ("commitment-key(g0,h,N')", w.cpk_own.g_bases[0].clone(), w.cpk_own.h.clone(), w.cpk_own.N.clone())];
+    let widths: Vec<(&str, Integer)> = vec![("1", Integer::from(1)), ("2", Integer::from(2)), ("3", Integer::from(3)), ("4", Integer::from(4)), ("255", Integer::from(255)), ("2^64", pow2(64)), ("2^256-1", pow2(256) - 1u32)];
+    let offsets: Vec<(&str, Integer)> = vec![("0", Integer::from(0)), ("1", Integer::from(1)), ("2^32", pow2(32))];
+    #[derive(Clone)]
+    enum Kind { Complete, OutOfRange, Transplant, Leaf(usize, usize), Statement }
+    struct Root { id: String, s: usize, wi: usize, oi: usize, kind: Kind }
+    let mut roots = Vec::new();
+    for s in 0..2 { for wi in 0..widths.len() { for oi in 0..offsets.len() {
+        roots.push(Root { id: format!("{}/{}/w={}/a={}/complete", CS::NAME, settings[s].0, widths[wi].0, offsets[oi].0), s, wi, oi, kind: Kind::Complete });
+        if oi == 1 { roots.push(Root { id: format!("{}/{}/w={}/a={}/out-of-range", CS::NAME, settings[s].0, widths[wi].0, offsets[oi].0), s, wi, oi, kind: Kind::OutOfRange }); }
+    } } }
+    for s in 0..2 { for wi in [1usize, 4, 6] { roots.push(Root { id: format!("{}/{}/w={}/transplant", CS::NAME, settings[s].0, widths[wi].0), s, wi, oi: 1, kind: Kind::Transplant }); roots.push(Root { id: format!("{}/{}/w={}/statement", CS::NAME, settings[s].0, widths[wi].0), s, wi, oi: 1, kind: Kind::Statement }); } }
+    for (s, wi) in [(0usize, 4usize), (1, 6)] { if s == 1 && !env.thorough() { continue; } let nch = 16; for ch in 0..nch { roots.push(Root { id: format!("{}/{}/w={}/leaf-edits/chunk{}", CS::NAME, settings[s].0, widths[wi].0, ch), s, wi, oi: 1, kind: Kind::Leaf(ch, nch) }); } }
+    env.ctx.set_rule("completeness: 2 (bases, modulus) settings x 7 interval widths {1,2,3,4,255,2^64,2^256-1} x 3 offsets {0,1,2^32} x 5 points {a, a+1, mid, b-1, b} => verify = true; honest prover out of range: x in {a-1, b+1, a-2^64, b+2^64} => no accepted proof (a prover panic is a refusal); transplants: per honest proof, 5 target commitments {commit(a-1), commit(b+1), commit(a-2^64), commit(-5), random group element} x ALL 16 keep/recompute patterns over {E_a_1, E_a_2, E_b_1, E_b_2} with E, E_prime re-targeted => rejected; statement edits: bounds a+-1, b+-1, other bases, other modulus => rejected; leaf edits: every integer leaf +1/-1/zero/sibling swap => rejected. State = (setting, interval, point / attack); non-trivial = the real verifier ran.");
+    par_for(&roots, |_, r| {
+        if !env.want(&r.id) || env.ctx.out_of_time() { return; }
+        let (sn, g, h, n) = (&settings[r.s].0, &settings[r.s].1, &settings[r.s].2, &settings[r.s].3);
+        let a = offsets[r.oi].1.clone();
+        let b = (&a + &widths[r.wi].1).complete();
+        let det0 = json!({"suite": CS::NAME, "setting": sn, "a": sd(&a), "b": sd(&b)});
+        let rnd = |lbl: &str| Integer::from_digits(&mccore::fill(seed, &format!("{}-{}", r.id, lbl), 120), rug::integer::Order::MsfBe);
+        let prove = |x: &Integer, c: &CL03Commitment, lo: &Integer, hi: &Integer| -> O<RP> { mccore::guard_val(|| RP::prove::<CS::HashAlg>(x, c, g, h, n, lo, hi)) };
+        let verify = |p: &RP, g2: &Integer, h2: &Integer, n2: &Integer, lo: &Integer, hi: &Integer| -> O<bool> { vcall(|| p.verify::<CS::HashAlg>(g2, h2, n2, lo, hi)) };
+        let mid = (&a + &b).complete() / 2u32;
+        match &r.kind {
+            Kind::Complete => {
+                let pts: Vec<(&str, Integer)> = vec![("a", a.clone()), ("a+1", a.clone() + 1u32), ("mid", mid.clone()), ("b-1", b.clone() - 1u32), ("b", b.clone())];
+                for (pn, x) in pts {
+                    if x < a || x > b { continue; }
+                    if !env.ctx.state(&[r.id.as_bytes(), x.to_string().as_bytes()]) { continue; }
+                    let c = commit(&x, &rnd(pn), g, h, n);
+                    let p = prove(&x, &c, &a, &b); env.ctx.step();
+                    match p { O::Ok(p) => { expect_bool(env, &r.id, &format!("verify(prove(x = {}))", pn), &verify(&p, g, h, n, &a, &b), true, false, "complete", json!({"base": det0, "point": pn}));
+                                if p.E != c.value { env.ctx.violation("C16:complete:E-differs", "proof.E is not the commitment it was made for", env.case(&r.id, json!({"base": det0, "point": pn}))); } }
+                              o => env.ctx.violation("C16:complete:prove-failed", &format!("honest prover failed for x = {}: {}", pn, o.describe()), env.case(&r.id, json!({"base": det0, "point": pn}))) }
+                    env.ctx.class("complete"); env.ctx.trace();
+                }
+                if r.wi == 4 && r.oi == 1 { env.ctx.sample(json!({"root": r.id, "interval": [sd(&a), sd(&b)], "points": ["a", "a+1", "mid", "b-1", "b"]})); }
+            }
+            Kind::OutOfRange => {
+                for (pn, x) in [("a-1", a.clone() - 1u32), ("b+1", b.clone() + 1u32), ("a-2^64", a.clone() - pow2(64)), ("b+2^64", b.clone() + pow2(64))] {
+                    if !env.ctx.state(&[r.id.as_bytes(), pn.as_bytes()]) { continue; }
+                    let c = commit(&x, &rnd(pn), g, h, n);
+                    let p = prove(&x, &c, &a, &b); env.ctx.step();
+                    match p { O::Ok(p) => { expect_bool(env, &r.id, &format!("verify(prove(x = {} out of range))", pn), &verify(&p, g, h, n, &a, &b), false, true, "honest-prover-out-of-range", json!({"base": det0, "point": pn})); env.ctx.class("out-of-range:proof-rejected"); }
+                              _ => { env.ctx.class("out-of-range:prover-refused"); env.ctx.add_extra("refusals_by_panic", 1); } }
+                    env.ctx.trace();
+                }
+            }
+            Kind::Statement => {
+                let c = commit(&mid, &rnd("st"), g, h, n);
+                let p = match prove(&mid, &c, &a, &b) { O::Ok(p) => p, o => { env.ctx.violation("C16:complete:prove-failed", &o.describe(), env.case(&r.id, det0)); return; } };
+                let (og, oh, on) = (&settings[1 - r.s].1, &settings[1 - r.s].2, &settings[1 - r.s].3);
+                let cases: Vec<(&str, Integer, Integer, &Integer, &Integer, &Integer)> = vec![("a+1", a.clone() + 1u32, b.clone(), g, h, n), ("a-1", a.clone() - 1u32, b.clone(), g, h, n), ("b+1", a.clone(), b.clone() + 1u32, g, h, n), ("b-1", a.clone(), b.clone() - 1u32, g, h, n),
+                    ("bases swapped", a.clone(), b.clone(), h, g, n), ("other bases", a.clone(), b.clone(), og, oh, n), ("other modulus", a.clone(), b.clone(), g, h, on), ("other bases and modulus", a.clone(), b.clone(), og, oh, on)];
+                for (nm, lo, hi, g2, h2, n2) in cases {
+                    if hi <= lo { continue; }
+                    if !env.ctx.state(&[r.id.as_bytes(), nm.as_bytes()]) { continue; }
+                    expect_bool(env, &r.id, &format!("verify against [{}]", nm), &verify(&p, g2, h2, n2, &lo, &hi), false, true, &format!("statement:{}", if nm.contains("a") && nm.len() == 3 || nm.starts_with('b') && nm.len() == 3 { "bounds" } else { "bases-or-modulus" }), json!({"base": det0, "against": nm}));
+                    env.ctx.class("statement-edit"); env.ctx.trace();
+                }
+            }
+            Kind::Transplant => {
+                // honest proof for x = mid, then re-target it to E' without knowing an in-range opening of E'
+                let c = commit(&mid, &rnd("tp"), g, h, n);
+                let p = match prove(&mid, &c, &a, &b) { O::Ok(p) => p, o => { env.ctx.violation("C16:complete:prove-failed", &o.describe(), env.case(&r.id, det0)); return; } };
+                let j = to_json(&p);
+                let big_t = 2 * (T_PARAM + L_PARAM + 1) + (&b - &a).complete().significant_bits();
+                let sq = Integer::from((&b - &a).complete().sqrt_ref());
+                let aa = pow2(big_t) * &a - pow2(L_PARAM + T_PARAM + big_t / 2 + 1) * &sq;
+                let bb = pow2(big_t) * &b + pow2(L_PARAM + T_PARAM + big_t / 2 + 1) * &sq;
+                let targets: Vec<(&str, Integer)> = vec![("commit(a-1)", commit(&(a.clone() - 1u32), &rnd("t1"), g, h, n).value), ("commit(b+1)", commit(&(b.clone() + 1u32), &rnd("t2"), g, h, n).value), ("commit(a-2^64)", commit(&(a.clone() - pow2(64)), &rnd("t3"), g, h, n).value), ("commit(-5)", commit(&Integer::from(-5), &rnd("t4"), g, h, n).value), ("random group element", modpow(&rnd("t5"), &Integer::from(2), n))];
+                let get = |k: &str| leaf_int(&j["proof_of_tolerance"][k]).unwrap();
+                for (tn, e_t) in &targets {
+                    let e_prime = modpow(e_t, &pow2(big_t), n);
+                    let e_a = (e_prime.clone() * inv(&modpow(g, &aa, n), n)) % n;       // E_a = E'/g^aa
+                    let e_b = (modpow(g, &bb, n) * inv(&e_prime, n)) % n;               // E_b = g^bb/E'
+                    for pat in 0..16u32 {
+                        // bit set = keep the honest value of that commitment, recompute its partner from the public relation E_x = E_x_1 * E_x_2
+                        let name = format!("{} / pattern {:04b}", tn, pat);
+                        if !env.ctx.state(&[r.id.as_bytes(), name.as_bytes()]) { continue; }
+                        let (mut ea1, mut ea2, mut eb1, mut eb2) = (get("E_a_1"), get("E_a_2"), get("E_b_1"), get("E_b_2"));
+                        // a-side: keep E_a_2 (bit1) and solve E_a_1, or keep E_a_1 (bit0) and solve E_a_2; both kept = no adaptation; none kept = both replaced by a fresh split
+                        match pat & 3 { 0b10 => ea1 = (e_a.clone() * inv(&ea2, n)) % n, 0b01 => ea2 = (e_a.clone() * inv(&ea1, n)) % n, 0b00 => { ea1 = modpow(g, &Integer::from(4), n); ea2 = (e_a.clone() * inv(&ea1, n)) % n; } _ => {} }
+                        match (pat >> 2) & 3 { 0b10 => eb1 = (e_b.clone() * inv(&eb2, n)) % n, 0b01 => eb2 = (e_b.clone() * inv(&eb1, n)) % n, 0b00 => { eb1 = modpow(g, &Integer::from(4), n); eb2 = (e_b.clone() * inv(&eb1, n)) % n; } _ => {} }
+                        let mut x = j.clone();
+                        x["E"] = int_leaf(e_t); x["E_prime"] = int_leaf(&e_prime);
+                        x["proof_of_tolerance"]["E_a_1"] = int_leaf(&ea1); x["proof_of_tolerance"]["E_a_2"] = int_leaf(&ea2); x["proof_of_tolerance"]["E_b_1"] = int_leaf(&eb1); x["proof_of_tolerance"]["E_b_2"] = int_leaf(&eb2);
+                        let p2: Option<RP> = from_json(&x);
+                        let got = match &p2 { Some(q) => verify(q, g, h, n, &a, &b), None => O::Ok(false) };
+                        expect_bool(env, &r.id, &format!("verify(transplant onto {})", name), &got, false, true, &format!("transplant:pattern-{:04b}", pat), json!({"base": det0, "target": tn, "pattern(keep E_b_2,E_b_1,E_a_2,E_a_1)": format!("{:04b}", pat)}));
+                        env.ctx.class(&format!("transplant:{}", match got { O::Ok(true) => "accepted", O::Ok(false) => "rejected", _ => "refused-by-panic" })); env.ctx.trace();
+                    }
+                }
+                env.ctx.sample(json!({"root": r.id, "targets": targets.iter().map(|t| t.0).collect::<Vec<_>>(), "patterns": 16}));
+            }
+            Kind::Leaf(ch, nch) => {
+                let c = commit(&mid, &rnd("lf"), g, h, n);
+                let p = match prove(&mid, &c, &a, &b) { O::Ok(p) => p, o => { env.ctx.violation("C16:complete:prove-failed", &o.describe(), env.case(&r.id, det0)); return; } };
+                let j = to_json(&p);
+                let leaves = int_leaf_paths(&j);
+                for (li, path) in leaves.iter().enumerate() {
+                    if li % nch != *ch { continue; }
+                    let cur = leaf_int(json_get(&j, path).unwrap()).unwrap();
+                    let mut edits: Vec<(String, Value)> = leaf_perturbations(&cur).into_iter().map(|(nm, v)| { let mut x = j.clone(); json_set(&mut x, path, int_leaf(&v)); (nm.to_string(), x) }).collect();
+                    if let Some(sib) = leaves.iter().skip(li + 1).find(|q| q.len() == path.len() && q[..q.len() - 1] == path[..path.len() - 1]) {
+                        let ov = json_get(&j, sib).unwrap().clone();
+                        if ov != *json_get(&j, path).unwrap() { let mut x = j.clone(); json_set(&mut x, path, ov); json_set(&mut x, sib, int_leaf(&cur)); edits.push((format!("swap with {}", sib.last().unwrap()), x)); }
+                    }
+                    for (nm, x) in edits {
+                        let name = format!("/{} {}", path.join("/"), nm);
+                        if !env.ctx.state(&[r.id.as_bytes(), name.as_bytes()]) { continue; }
+                        let p2: Option<RP> = from_json(&x);
+                        let got = match &p2 { Some(q) => verify(q, g, h, n, &a, &b), None => O::Ok(false) };
+                        expect_bool(env, &r.id, &format!("verify after leaf edit {}", name), &got, false, true, &format!("leaf-edit:/{}", path_class(path)), json!({"base": det0, "leaf": path.join("/"), "edit": nm}));
+                        env.ctx.class(&format!("leaf:{}", match got { O::Ok(false) => "rejected", O::Ok(true) => "accepted", _ => "refused-by-panic" })); env.ctx.trace();
+                    }
+                }
+                env.ctx.extra("leaves_per_range_proof", json!(leaves.len()));
+            }
+        }
+    });
+}
